@@ -32,6 +32,16 @@ def roll_episode(rng, cls_name):
         drop = rng.randrange(1, len(days) - 1)
         if not (ltd <= days[drop] < exp and sum(1 for d in days if ltd <= d < exp) <= 1):
             days.pop(drop)
+    lat_us, cross = 0, None
+    if rng.random() < 0.35:
+        # a decision a few seconds before the midnight that is a last trading date, executed after it: the latency
+        # window crosses the roll, with a quote inside the window so that the clock actually moves past the date.
+        # The chain is resolved at the instant of execution (that is where the trades are stamped and priced).
+        sec = rng.choice([1, 5, 20])
+        # (the latency must be shorter than every gap of the grid: the midnight itself is not a timestep here)
+        days = sorted((set(days) - {ltd}) | {ltd - dt.timedelta(seconds=sec)})
+        lat_us = (sec + rng.choice([0, 1, 30])) * 1_000_000
+        cross = us(ltd) + rng.choice([0, 1, lat_us - sec * 1_000_000])
     grid = [us(d) for d in days]
     syms = [c.symbol for c in ch.contracts[k:k + 3]]
     events = []
@@ -44,9 +54,14 @@ def roll_episode(rng, cls_name):
             mids[s_] = mids[s_] * Fraction(rng.randint(98, 102), 100)
             half = mids[s_] * Fraction(rng.choice([0, 1, 4]), 4000)
             events.append(["q", s_, t, fr(F(float(mids[s_] - half))), fr(F(float(mids[s_] + half)))])
+    if cross is not None:
+        for s_ in syms:
+            mids[s_] = mids[s_] * Fraction(rng.randint(98, 102), 100)
+            events.append(["q", s_, cross, fr(F(float(mids[s_]))), fr(F(float(mids[s_])))])
+        events.sort(key=lambda e: e[2])
     case = dict(contracts=[], chains=[dict(name="c", cls=cls_name, start="2019-01", end="2020-07", month=0)],
                 fees=rng.choice([["0", "0", "0"], ["0", "1/2000", "0"]]), deposit="10000000", grid=grid, events=events,
-                latency=0, delay=0, markov=False, warmup=None,
+                latency=lat_us, delay=0, markov=False, warmup=None,
                 space=dict(kind="box", low="-1", high="1", keys=["@c"], asWeights=1, fractional=1,
                            margin=rng.choice(["0", "0", "1/50", "1/7"])),  # never equal to a target weight k/32: an imbalance exactly at the
                            # threshold is decided by rounding in the real-valued regime (boundaries are C12's exact regime)
@@ -65,6 +80,8 @@ def roll_episode(rng, cls_name):
         acts = [big if i < cut else small if i < j + 1 else later for i in range(len(grid) - 1)]
         case["ops"] = [["reset", None, 0]] + [["step", [fr(a)]] for a in acts]
     case["kind"] = "episode"
+    if lat_us:
+        case["_latency_roll"] = True
     case["_roll"] = dict(symbol=fut.symbol, ltd=us(ltd), expiry=us(exp))
     return case
 
@@ -80,7 +97,8 @@ class C11(Prop):
             "month offsets 0..2 with `now` at every exact last-trading instant, 1 microsecond before and after, and "
             "mid-way between consecutive ones - compared with the model's bisect and with the rule 'earliest last-"
             "trading date strictly later than now'; (b) episodes trading a chain across a roll (long and short targets, "
-            "spreads, thresholds up to 25%, grids with gaps shorter than the roll window): after every rebalance every "
+            "spreads, thresholds up to 25%, grids with gaps shorter than the roll window; decisions taken seconds before a last trading date "
+            "and executed, after the latency, past it): after every rebalance every "
             "other contract of the chain is flat and nothing is held at or after its expiry. Non-trivial = a lead "
             "table, or an episode in which a position was actually rolled; distinct = distinct cases")
     nontrivial_tags = {"lead-table", "rolled"}
@@ -166,6 +184,8 @@ class C11(Prop):
                                theorem="roll_closes_old_lead / roll_window_nonempty")
         if len(held_syms) >= 2:
             r.tags.add("rolled")
+        if case.get("_latency_roll"):
+            r.tags.add("latency-window-crosses-roll")
         return r
 
 
